@@ -67,6 +67,50 @@ theorem C42_mergeResponse (ps : List Piece) (h : Coherent ps) :
       ∀ x, x ∈ look (mergeResponse true (ps.map (·.m))) id ↔ ∃ p ∈ ps, x ∈ look p.m id :=
   mergeResponse_spec ps h
 
+
+/-! ### the whole chain on histories of one step -/
+
+/-- **C42_step** (one request, same-step cache): if every key of the cache is for the request's
+    step and every cached extent holds exactly the downstream's data (`GoodCache`), the chain
+    StepAlign → SplitByInterval → results cache (hit with any number of extents, partial hits,
+    tiny extents, misses) → MergeResponse answers with the direct answer to the step-aligned
+    request and leaves a good cache. -/
+theorem C42_step (g : Bool) (D : Down) (hD : D.Sorted) (splitMs : Int) (hsp : 0 < splitMs) (c : Cache) (req : Req)
+    (hstep : 0 < req.step) (h0 : 0 ≤ req.start) (hle : req.start ≤ req.stop) (hc : GoodCache D req.step c) :
+    ∃ c', frontend ⟨true, g⟩ D true splitMs c req =
+        some (evalD D (req.start / req.step * req.step) (req.stop / req.step * req.step) req.step, c') ∧
+      GoodCache D req.step c' :=
+  frontend_spec g D hD splitMs hsp c req hstep h0 hle hc
+
+theorem history_same_step (g : Bool) (D : Down) (hD : D.Sorted) (splitMs : Int) (hsp : 0 < splitMs) (st : Int) (hst : 0 < st) :
+    ∀ (reqs : List Req) (c : Cache), GoodCache D st c → (∀ r ∈ reqs, r.step = st ∧ 0 ≤ r.start ∧ r.start ≤ r.stop) →
+      history ⟨true, g⟩ D true splitMs c reqs =
+        reqs.map fun r => some (evalD D (r.start / st * st) (r.stop / st * st) st)
+  | [], _, _, _ => rfl
+  | r :: rs, c, hc, hr => by
+    obtain ⟨h1, h2, h3⟩ := hr r (by simp)
+    subst h1
+    obtain ⟨c', hf, hc'⟩ := C42_step g D hD splitMs hsp c r hst h2 h3 hc
+    unfold history
+    rw [hf]
+    simp only [List.map_cons]
+    rw [history_same_step g D hD splitMs hsp r.step hst rs c' hc' (fun r' hr' => hr r' (List.mem_cons_of_mem _ hr'))]
+
+/-- **C42 for histories that use one step** (any step, any split interval, any number of
+    requests, aligned or not — StepAlign is on —, overlapping / adjacent / disjoint / repeated
+    ranges, any data): every response of the repaired chain is the direct answer to the
+    step-aligned request. -/
+theorem C42_same_step (g : Bool) (D : Down) (hD : D.Sorted) (splitMs : Int) (hsp : 0 < splitMs) (st : Int) (hst : 0 < st)
+    (reqs : List Req) (hr : ∀ r ∈ reqs, r.step = st ∧ 0 ≤ r.start ∧ r.start ≤ r.stop) :
+    history ⟨true, g⟩ D true splitMs [] reqs =
+      reqs.map fun r => some (evalD D (r.start / st * st) (r.stop / st * st) st) :=
+  history_same_step g D hD splitMs hsp st hst reqs [] (by intro kv hkv; simp at hkv) hr
+
+-- non-vacuity: a three-request history (hit, extension to the right, front piece) meets the hypotheses
+example : ∀ r ∈ [(⟨7800000, 8400000, 600000⟩ : Req), ⟨7200000, 9000000, 600000⟩, ⟨6000000, 7800000, 600000⟩],
+    r.step = 600000 ∧ 0 ≤ r.start ∧ r.start ≤ r.stop := by
+  intro r hr; simp at hr; rcases hr with rfl | rfl | rfl <;> decide
+
 /-! ### regenerated obligations -/
 
 /-- the variant the model driver runs (`liveCfg`) is the one the sources show: `minTime()` and the
